@@ -157,4 +157,26 @@ theorem getMove_live (basis : Array W) (search : Nat → Pos → Option Int → 
     simp only [hst]
     simp only [readUntil, connAfter, List.append_assoc, List.cons_append, List.nil_append, Nat.add_assoc, if_true]
 
+/-- a call with a duration that cannot be expressed in milliseconds: the position line is sent, then the
+error is returned; no `go` line, the engine keeps waiting with the new position -/
+theorem getMove_short (basis : Array W) (search : Nat → Pos → Option Int → SearchRes)
+    (c : Conn EngSt) (pl : Player) (p : Pos) (rem : Option Int) (tc : Option TimeControl)
+    (hp : tpsHyp basis p = true) (hshort : TooShort rem (tc.getD {}))
+    (halive : c.alive = true) (hgame : pl.gameid = c.gameid) (hsize : c.eng.st.size = p.cfg.size) :
+    ∃ tps p', TPS.formatTPS p = .ok tps ∧ TPS.parseTPS basis tps = .ok p' ∧
+      teiGetMove (serverPeer (realEnv basis search)) c pl p rem tc
+        = ({ c with eng := { st := { c.eng.st with pos := some p' }, k := c.eng.k + 1, exit := none, deadline := none }
+                    wrote := c.wrote ++ ["position tps " ++ str tps] },
+           .error (.illegal "Timeout too short")) := by
+  obtain ⟨tps, p', hf, hparse, hstep, _⟩ := position_step basis search p hp c.eng.k c.eng.st hsize
+  refine ⟨tps, p', hf, hparse, ?_⟩
+  have hsome : goCmd rem tc = goCmd rem (some (tc.getD {})) := by
+    cases tc with
+    | none => exact goCmd_none rem
+    | some t => rfl
+  have herr := goCmd_short rem _ hshort
+  rw [← hsome] at herr
+  simp only [teiGetMove, teiGetMoveWith, hgame, ne_eq, not_true_eq_false, if_false, hf, sendCommand, halive,
+    Bool.not_true, Bool.false_eq_true, serverPeer, hstep, List.append_nil, if_true, herr]
+
 end Proofs.TEIClient
